@@ -44,11 +44,12 @@ def NeverFlushed : List Call → Prop
 
 /-- what `encoder_compress` reads back from its private encoder after the single
 `compress_stream(FINISH, input, available_out = *encoded_size)` call: the return value, `is_finished()`,
-the bytes put into the caller's buffer and their number (`total_out`: every byte handed out through
-`next_out` is counted once — C13 `total_out_is_sum`) -/
+the bytes put into the caller's buffer and `total_out` = the encoder's own counter `total_out_`
+(that it equals the number of those bytes is a theorem: `stream_phase_within_buffer`, from the byte
+ledger of Lemmas/StreamTotal.lean) -/
 def outcomeOf (r : Out (St × Io × Bool)) : Option BV.Stored.StreamOutcome :=
   match r with
-  | .ok (s', io', res) => some { result := res, finished := isFinished s', totalOut := io'.out.length, bytes := io'.out }
+  | .ok (s', io', res) => some { result := res, finished := isFinished s', totalOut := s'.totalOut, bytes := io'.out }
   | _ => none
 
 /-- `x as u32` for an `i32` -/
